@@ -6,9 +6,9 @@ CONSTANTS
   ExitLinked = TRUE
   StopAfterAnswer = TRUE
   ResumeAllEdges = TRUE
-  StartNodePerFlow = TRUE
+  StartNodePerFlow = FALSE
   StepCap = 600
   CheckLoader = FALSE
 SPECIFICATION Spec
 CHECK_DEADLOCK FALSE
-INVARIANT NoAnswer
+INVARIANT FollowsGraph
